@@ -144,6 +144,7 @@ class Emitter:
         self.lines: List[str] = []
         self.nlabel = 0
         self.intc: List[int] = []
+        self.intc_dup: Dict[Tuple[str, int], int] = {}
         self.scope = "m"
         self.rej_used: Dict[str, bool] = {}
 
@@ -189,6 +190,14 @@ class Emitter:
                 self.intc.append(c[1])
             i = self.intc.index(c[1])
             return [f"intc_{i}" if i < 4 and c[-1] != "long" else f"intc {i}"]
+        if k == "intcd":
+            # a constant block that repeats values (legal TEAL): [v + 1, v + 1, v] is appended and the LAST slot is used
+            key = ("dup", c[1])
+            if key not in self.intc_dup:
+                self.intc_dup[key] = len(self.intc) + 2
+                d = (c[1] + 1) % 2**64
+                self.intc += [d, d, c[1]]
+            return [f"intc {self.intc_dup[key]}"]
         if k == "addr":
             return [f"addr {c[1]}"]
         if k == "zero":
@@ -468,7 +477,7 @@ FEE_CONSTS = (0, 1, 1000, 271999, 272000, 272001, 2**64 - 1)
 
 
 def int_const_spellings(v: int) -> List[Tuple]:
-    return [("int", v), ("pushint", v), ("intc", v), ("hex", v), ("oct", v)]
+    return [("int", v), ("pushint", v), ("intc", v), ("hex", v), ("oct", v), ("intcd", v)]
 
 
 def int_atoms(ref: Tuple, consts: Iterable[int], ops: Sequence[str] = OPS, orders: Sequence[str] = ("fc", "cf"),
